@@ -73,6 +73,15 @@ where
         }
     }
 
+    /// Make sure that the "log prune" processor does not act on this event.
+    ///
+    /// The prune arguments are derived from the header _before_ the operation was validated. As
+    /// soon as a previous processor rejected the operation they can not be trusted anymore and must
+    /// never have an effect on the store.
+    pub(crate) fn skip_log_prune(&mut self) {
+        self.log_prune_args = LogPruneArgs::Ignore;
+    }
+
     /// System-level data (append-only log, pruning coordination, etc.) of this operation.
     pub fn header(&self) -> &Header<E> {
         &self.operation.header
